@@ -1,15 +1,9 @@
 (** C02 -- cache keeps the newest value per leaf (timestamp discipline).
     Only property theorems, each closed by [exact] of a lemma proved
     elsewhere, with [Print Assumptions] beneath. *)
-From Gnmi Require Import Base.Prelude CTree.CTreeModel Path.PathModel Cache.CacheModel.
+From Gnmi Require Import Base.Prelude CTree.CTreeModel Path.PathModel Cache.CacheModel Cache.CacheProofs.
 
-Theorem C02_check_timestamp_monotone :
+Theorem C02_check_timestamp_ge :
   forall t ts z, t_ts (check_timestamp t ts) = Some z -> (ts <= z)%Z.
-Proof.
-  intros t ts z. unfold check_timestamp. destruct (t_ts t) as [z0|] eqn:E; cbn.
-  - destruct (Z.ltb_spec z0 ts); cbn; intros H.
-    + inversion H; lia.
-    + rewrite E in H. inversion H; lia.
-  - intros H; inversion H; lia.
-Qed.
-Print Assumptions C02_check_timestamp_monotone.
+Proof. exact check_timestamp_ge. Qed.
+Print Assumptions C02_check_timestamp_ge.
